@@ -1,5 +1,5 @@
 (* C01 - Timed-move prediction equals the firmware step-accumulator recurrence.  Statements only. *)
-From Plotink Require Import Base.Prelude Spec.Firmware Model.EbbCalc Model.EbbCalcRnd Proofs.EbbCalcProofs Proofs.EbbRndProofs Proofs.EbbClosed Corr.C01.
+From Plotink Require Import Base.Prelude Spec.Firmware Model.EbbCalc Model.EbbCalcRnd Proofs.EbbCalcProofs Proofs.EbbRndProofs Proofs.EbbClosed Corr.C01 Base.Rnd Proofs.RndProofs.
 Open Scope Z_scope.
 
 (* exact model of move_dist_lt = tick-by-tick recurrence, for all integers and every tick count T >= 1,
@@ -41,9 +41,19 @@ Example C01_example : move_dist_lt (-2) (-3) 5 None = lt_spec (-2) (-3) 5 None /
   /\ lt_spec 1 (-1) 2 None = (0, 2147483646) /\ lt_spec (-5) (-3) 5 (Some 10) = (-1, 2147483593).
 Proof. repeat split; vm_compute; reflexivity. Qed.
 
+(* ... and the executable round-to-nearest-even at 103 bits (Base.Rnd.round_ne 103, compared with mpmath's operations on every run:
+   Corr/Rounding.v) is such an operator (Proofs/RndProofs.v): no hypothesis about the rounding is left *)
+Theorem C01_rounding_exact_rne : forall rate accel time accum, Z.abs rate <= 2 ^ 33 -> Z.abs accel <= 2 ^ 32 -> 0 <= time <= 2 ^ 32 ->
+  match accum with Some c => 0 <= c < 2 ^ 31 | None => True end ->
+  move_dist_lt_r (round_ne 103) rate accel time accum = move_dist_lt rate accel time accum.
+Proof.
+  apply C01_rounding_exact; [intros x y; apply round_ne_comp; lia|intros x R; apply round_ne_exact; [lia|exact R]].
+Qed.
+
 Print Assumptions C01_exact.
 Print Assumptions C01_remainder_in_range.
 Print Assumptions C01_closed_form.
 Print Assumptions C01_checker_is_spec.
 Print Assumptions C01_aliases.
 Print Assumptions C01_rounding_exact.
+Print Assumptions C01_rounding_exact_rne.
